@@ -284,6 +284,17 @@ def step(ex, st, T):
         n = a[1][1]
         yield from step(ex, st, ("citer", tuple(("&", ("array", tuple(items[i:i + n]))) for i in range(max(0, len(items) - n + 1))), 0))
         return
+    if m in ("chunks", "chunks_exact") and len(a) == 2:
+        n_ = ex.canon(st, a[1])
+        items = _array_items(ex, st, a[0])
+        if items is None or n_[0] != "const" or not isinstance(n_[1], int) or n_[1] <= 0:
+            raise NotConcrete("chunks over unknown length / size")
+        n = n_[1]
+        parts = [items[i:i + n] for i in range(0, len(items), n)]
+        if m == "chunks_exact":
+            parts = [q for q in parts if len(q) == n]
+        yield from step(ex, st, ("citer", tuple(("&", ("array", tuple(q))) for q in parts), 0))
+        return
     if m in ("copied", "cloned") and len(a) == 1:
         for s2, it, inner2 in step(ex, st, a[0]):
             if it is None:
